@@ -28,6 +28,20 @@ func NewMultiSorted[T Signature](sigs ...T) Multi[T] {
 	return Multi[T](sigs)
 }
 
+// hasDuplicateSigners returns true if a signer appears more than once in sig.
+// A multi-signature counts its entries as participants, so every entry must
+// come from a distinct signer for Len to be the number of participants.
+func hasDuplicateSigners[T Signature](sig Multi[T]) bool {
+	seen := make(map[hotstuff.ID]struct{}, len(sig))
+	for _, s := range sig {
+		if _, ok := seen[s.Signer()]; ok {
+			return true
+		}
+		seen[s.Signer()] = struct{}{}
+	}
+	return false
+}
+
 // ToBytes returns the object as bytes.
 func (sig Multi[T]) ToBytes() []byte {
 	var b []byte
